@@ -79,10 +79,14 @@ class Region:
 
 class IrSem:
     def __init__(self, module, ptr_bits=32, ext_results=(), max_steps=400, max_depth=3, init_globals=None,
-                 buffers=None):
+                 buffers=None, layout=None):
         """init_globals: {variable name: list of byte values (ints / SymInt)} overriding/defining initial
         contents (default: Variable.value if present, else zeros).  buffers: {name: list of bytes}: extra
-        caller-owned regions (returned addresses via self.buf_addr[name])."""
+        caller-owned regions (returned addresses via self.buf_addr[name]).  layout: optional
+        {global or buffer name: address}: place these regions at the given addresses (the address map is
+        the implementation's choice; a check may evaluate the reference under the map of the code under
+        test); must not overlap each other or the stack area."""
+        layout = layout or {}
         self.m = module
         self.pb = ptr_bits
         self.ext_results = list(ext_results)
@@ -103,6 +107,9 @@ class IrSem:
         for v in module.variables:
             al = max(v.alignment, 1)
             a = (a + al - 1) // al * al
+            nxt = None
+            if v.name in layout:
+                nxt, a = a, layout[v.name]
             self.gaddr[v.name] = a
             self.regions.append(Region(v.name, a, v.amount, "global"))
             init = None
@@ -118,17 +125,24 @@ class IrSem:
             if init is not None:
                 for k, b in enumerate(init[:v.amount]):
                     self.mem = z3.Store(self.mem, z3.BitVecVal(a + k, ptr_bits), bvv(b, 8))
-            a += v.amount
+            a = nxt if nxt is not None else a + v.amount
         assert a < BUF_BASE, "too many globals for the model's address map"
         a = BUF_BASE
         for name, data in (buffers or {}).items():
             a = (a + 15) // 16 * 16
+            nxt = None
+            if name in layout:
+                nxt, a = a, layout[name]
             self.buf_addr[name] = a
             self.regions.append(Region(name, a, len(data), "buffer"))
             for k, b in enumerate(data):
                 self.mem = z3.Store(self.mem, z3.BitVecVal(a + k, ptr_bits), bvv(b, 8))
-            a += len(data)
+            a = nxt if nxt is not None else a + len(data)
         assert a < STACK_BASE
+        if layout:
+            spans = sorted((r.base, r.base + r.size) for r in self.regions)
+            assert all(x[1] <= y[0] for x, y in zip(spans, spans[1:])), "layout: overlapping regions"
+            assert all(hi <= STACK_BASE or lo >= STACK_BASE + 0x8000 for lo, hi in spans), "layout: region in stack area"
         for k, f in enumerate(list(module.functions) + list(getattr(module, "externals", []))):
             self.faddr[f.name] = CODE_BASE + 4 * k
             self.fbyaddr[CODE_BASE + 4 * k] = f
